@@ -164,14 +164,17 @@ Section Proxy.
   (* ================= internal/rpcserver/server.go ================= *)
 
   (* Start: chain id discovery.  json.Unmarshal(result, &interface{}(&HexInteger)): null leaves the
-     zero value; the big integer is then truncated by Int64(). *)
+     zero value; a value that does not fit in int64 is refused (fix 0c95e98; before, Int64() truncated
+     it), so that Int64() is the identity on what remains. *)
   Definition Start (configured : Z) : res Z * list frame :=
     if (configured <? 0)%Z then
       match CallRPC (bs "net_version") [] with
       | (inr _, frames) => (Err EStart, frames)
       | (inl JNull, frames) => (Ok 0%Z, frames)
       | (inl v, frames) => match dec_hexint parse_int v with
-                           | Ok n => (Ok (wrap64 (Z.of_N n)), frames)
+                           | Ok n => if (Z.of_N n <? 9223372036854775808)%Z              (* BigInt().IsInt64(), fix 0c95e98 *)
+                                     then (Ok (wrap64 (Z.of_N n)), frames)
+                                     else (Err EStart, frames)
                            | _ => (Err EStart, frames)
                            end
       end
